@@ -75,6 +75,11 @@ func newDisjunctionSearcher(ctx context.Context, indexReader index.IndexReader,
 				for _, s := range qsearchers {
 					_ = s.Close()
 				}
+				// an enclosing boolean searcher asks its should clause for
+				// Min() to tell a required clause from an optional one
+				if ts, ok := rv.(*TermSearcher); ok {
+					ts.min = int(min)
+				}
 				return rv, nil
 			}
 		}
